@@ -8,6 +8,9 @@ A scenario is JSON:
 
     {'layer': 'session', 'proto': .., 'seed': n, 'srt': sent_request_timeout, 'msd': max_send_delay,
      'calls':  [['req'] | ['req', T] | ['batch', 'rnr', raise_errors] | ['batch', 'rnr', re, T]],
+     'tags':   [g, ..]   (optional) call i sends method 'm' with args [g_i, member]: calls with the
+                         same tag (and shape) make EQUAL requests / batches of equal members, as
+                         two pollers would; default g_i = i (all distinct),
      'script': [step, ..]}
 
 `T` = the caller wraps its call in `timeout_after(T)`.  Steps (the loop is run until nothing is
@@ -32,13 +35,17 @@ The oracle (`session_oracle`) is written from the property text over what crosse
 its true order (`FakeTransport.log`), and what each caller got:
   * ids of requests on the wire that the peer has not answered yet are pairwise distinct;
   * a caller that gets a result / error / batch outcome gets exactly what the peer sent in
-    answer to ITS message, and gets it when that answer arrives (if it is still waiting);
+    answer to ITS message (the message ITS task wrote - the writer of every message is known
+    exactly, equal requests included; the peer's answers differ per call), and gets it when
+    that answer arrives (if it is still waiting); the answer to a request that is on the wire,
+    unanswered and still awaited is never rejected as a protocol error;
   * an answer for something that is not outstanding is counted as a protocol error
     (`session.errors`) and disturbs nobody; a later request is still answered.
 The same traffic is replayed through the Lean model at connection level: requests in the order
 the connection created them (recorded at the public `send_request` / `send_batch`), messages in
 the order delivered, futures cancelled by callers that gave up, the connection lost."""
 import asyncio
+import contextvars
 import json
 import logging
 import random
@@ -48,6 +55,14 @@ from harness.c01 import (PROTO_CLASS, OutsideModel, Resolver, abstract, fut_stat
                          value, value_token, wire_ids)
 from harness.c01_fake import make_session, settle
 from tools.facts.common import fresh_import
+
+
+CURRENT_CALL = contextvars.ContextVar('c01_current_call', default=-1)
+
+
+def tag_of(sc, i):
+    tags = sc.get('tags')
+    return tags[i] if tags and i < len(tags) else i
 
 
 def reply_for(call, member):
@@ -104,6 +119,8 @@ async def run_scenario(mods, sc, id_step=1, fail_draws=(True, True)):
     rng = random.Random(sc['seed'])
     events = []            # the history, in order (see session_oracle)
     created = []           # requests / batches in the order the connection created them
+    verdicts = []          # per message handed to the connection: 'ok' | 'P' (ProtocolError)
+    writers = []           # per transport write: the call whose task wrote it (-1: nobody's)
 
     class RecConn(jr.JSONRPCConnection):
         """records what goes through the connection's public send_request / send_batch"""
@@ -131,6 +148,20 @@ async def run_scenario(mods, sc, id_step=1, fail_draws=(True, True)):
             events.append(('create', len(created) - 1))
             return message, future
 
+        def receive_message(self, message):
+            # one entry per message the session hands over, in order: was it rejected?
+            text = bytes(message).decode('utf-8', 'replace')
+            try:
+                r = super().receive_message(message)
+            except jr.ProtocolError:
+                verdicts.append([text, 'P'])
+                raise
+            except BaseException as e:   # noqa: observation
+                verdicts.append([text, '!' + type(e).__name__])
+                raise
+            verdicts.append([text, 'ok'])
+            return r
+
     class Client(session_mod.RPCSession):
         sent_request_timeout = float(sc.get('srt', 30.0))
         max_send_delay = float(sc.get('msd', 20.0))
@@ -140,13 +171,19 @@ async def run_scenario(mods, sc, id_step=1, fail_draws=(True, True)):
 
     logging.disable(logging.CRITICAL)
     _p, transport, session = make_session(rawsocket, Client, session_mod.SessionKind.CLIENT)
+    plain_write = transport.write
+
+    def write(data):
+        writers.append(CURRENT_CALL.get())
+        plain_write(data)
+    transport.write = write
     ncalls = len(sc['calls'])
     outcomes = [None] * ncalls
     tasks = [None] * ncalls
 
     async def one_call(i, call):
         if call[0] == 'req':
-            r = await session.send_request('m', [i, 0])
+            r = await session.send_request('m', [tag_of(sc, i), 0])
             return ('r' + result_token(jr, r)[1:]) if not isinstance(r, Exception) \
                 else result_token(jr, r)
         batch = None
@@ -154,9 +191,9 @@ async def run_scenario(mods, sc, id_step=1, fail_draws=(True, True)):
             async with session.send_batch(raise_errors=bool(call[2])) as batch:
                 for j, c in enumerate(call[1]):
                     if c == 'r':
-                        batch.add_request('m', [i, j])
+                        batch.add_request('m', [tag_of(sc, i), j])
                     else:
-                        batch.add_notification('n', [i, j])
+                        batch.add_notification('n', [tag_of(sc, i), j])
             pre = ''
         except session_mod.BatchError:
             pre = 'B!'
@@ -165,6 +202,7 @@ async def run_scenario(mods, sc, id_step=1, fail_draws=(True, True)):
                       'b[' + ';'.join(result_token(jr, x) for x in res) + ']')
 
     async def do_call(i, call):
+        CURRENT_CALL.set(i)        # this task's context only
         own = call[1] if call[0] == 'req' and len(call) > 1 else \
             call[3] if call[0] == 'batch' and len(call) > 3 else None
         try:
@@ -185,6 +223,7 @@ async def run_scenario(mods, sc, id_step=1, fail_draws=(True, True)):
             outcomes[i] = '!' + type(e).__name__
 
     seen_log = 0
+    seen_w = 0
     seen_out = [None] * ncalls
     created_by = {}        # index in `created` -> call index
     parked = []            # indices in `created` of the callers parked in transport.write
@@ -195,22 +234,23 @@ async def run_scenario(mods, sc, id_step=1, fail_draws=(True, True)):
 
     def collect():
         """move what happened since the last step into `events`, in order"""
-        nonlocal seen_log
+        nonlocal seen_log, seen_w
         for rec in transport.log[seen_log:]:
             if rec[0] == 'w':
+                who = writers[seen_w] if seen_w < len(writers) else -1
+                seen_w += 1
                 for line in rec[1].split(b'\n'):
                     if not line:
                         continue
                     msg = json.loads(line)
-                    events.append(('w', msg))
+                    events.append(('w', msg, who))
                     members = msg if isinstance(msg, list) else [msg]
                     for m in members:
                         if isinstance(m, dict) and m.get('id') is not None:
                             all_ids.append(m['id'])
-                    first = members[0] if members else None
-                    if isinstance(first, dict) and isinstance(first.get('params'), list) \
-                            and first['params'] and any(m.get('id') is not None for m in members):
-                        on_wire.setdefault(first['params'][0], msg)
+                    if who >= 0 and any(isinstance(m, dict) and m.get('id') is not None
+                                        for m in members):
+                        on_wire.setdefault(who, msg)
             elif rec[0] == 'r':
                 events.append(('r',) + pending_meta.pop(0))
             else:
@@ -245,11 +285,11 @@ async def run_scenario(mods, sc, id_step=1, fail_draws=(True, True)):
         if isinstance(msg, dict):
             if shape == 'mal':
                 return make_resp(style, msg['id'], 'mal1', 4)
-            kind, n = reply_for(*msg['params'])
+            kind, n = reply_for(i, 0)
             return make_resp(style, msg['id'], kind, n)
         parts = []
         for m in reqs:
-            kind, n = reply_for(*m['params'])
+            kind, n = reply_for(i, m['params'][1])
             parts.append(make_resp(style, m['id'], kind, n))
         rng.shuffle(parts)
         return parts
@@ -379,7 +419,7 @@ async def run_scenario(mods, sc, id_step=1, fail_draws=(True, True)):
             'events': [list(e) for e in history if e[0] in ('w', 'r', 'lost', 'o', 'fcancel')],
             'conn_ops': conn_ops, 'sess_ops': sess_ops, 'wire': 'w' + ';'.join(wire),
             'start': start, 'futs': futs, 'pending': pending,
-            'stuck': stuck, 'errors': errors, 'alive': alive}
+            'stuck': stuck, 'errors': errors, 'alive': alive, 'verdicts': verdicts}
 
 
 RESPONSE_LIKE = ('r', 'e', 'b', 'P', 'B')
@@ -391,6 +431,9 @@ def session_oracle(sc, obs):
     delivered = {}         # call index -> (event index, token the caller must get)
     got = {}               # call index -> (event index, outcome)
     rejected_due = 0
+    nrecv = 0
+    verdicts = obs.get('verdicts') or []
+    gone = set()           # callers that have an outcome already
     for x, e in enumerate(obs['events']):
         if e[0] == 'w':
             msg = e[1]
@@ -407,10 +450,21 @@ def session_oracle(sc, obs):
                         return ('c01:id-not-fresh',
                                 f'request(s) {msg} written with id {i!r} while the request of call '
                                 f'{other} with the same id is on the wire and unanswered')
-            who = reqs[0].get('params', [None])[0]
+            who = e[2] if len(e) > 2 else reqs[0].get('params', [None])[0]
             unanswered[who] = ids
         elif e[0] == 'r':
             _payload, kind, i, shape = e[1], e[2], e[3], e[4]
+            verdict = None     # what the connection said to exactly this message
+            if nrecv < len(verdicts) and verdicts[nrecv][0] == json.dumps(_payload):
+                verdict = verdicts[nrecv][1]
+            nrecv += 1
+            if kind == 'answer' and shape == 'ok' and i in unanswered and i not in gone \
+                    and verdict == 'P':
+                return ('c01:session-outstanding-response-rejected',
+                        f'call {i} {sc["calls"][i]}: its request (ids {unanswered[i]}) is on the '
+                        f'wire, unanswered and still awaited; the peer\'s response under '
+                        f'{"that id" if len(unanswered[i]) == 1 else "those ids"} was rejected '
+                        f'as a protocol error')
             if kind in ('answer', 'dup') and i in unanswered:
                 del unanswered[i]
                 delivered.setdefault(i, (x, expected_token(sc, i, shape)))
@@ -420,6 +474,7 @@ def session_oracle(sc, obs):
             unanswered.clear()
         elif e[0] == 'o':
             got[e[1]] = (x, e[2])
+            gone.add(e[1])
     for i, call in enumerate(sc['calls']):
         members = call[1].count('r') if call[0] == 'batch' else 1
         out = got.get(i)
@@ -457,6 +512,21 @@ def session_oracle(sc, obs):
 
 
 # ------------------------------------------------------------------ scenario families
+def draw_tags(rng, calls, p=0.45):
+    """tags for `calls` such that a call repeats, with probability p, the request / the batch of
+    an earlier call: same method and args (a batch: the same members; the later call's member
+    string is overwritten to that end).  Time-outs and raise_errors stay the call's own."""
+    tags = list(range(len(calls)))
+    for i, call in enumerate(calls):
+        earlier = [j for j in range(i) if calls[j][0] == call[0]]
+        if earlier and rng.random() < p:
+            j = rng.choice(earlier)
+            tags[i] = tags[j]
+            if call[0] == 'batch':
+                call[1] = calls[j][1]
+    return tags
+
+
 def basic_scenarios(rng, n, protos=('v2', 'loose', 'v1', 'auto')):
     out = []
     # fixed ones first: the notification-only batch (F19), mixed shapes
@@ -473,16 +543,21 @@ def basic_scenarios(rng, n, protos=('v2', 'loose', 'v1', 'auto')):
             else:
                 ms = ''.join(rng.choice('rrn') for _ in range(rng.randint(1, 4)))
                 calls.append(['batch', ms, int(rng.random() < 0.3)])
-        out.append({'layer': 'session', 'proto': proto, 'calls': calls, 'seed': rng.randrange(10**6)})
+        sc = {'layer': 'session', 'proto': proto, 'calls': calls, 'seed': rng.randrange(10**6)}
+        if k % 2:
+            sc['tags'] = draw_tags(rng, calls)
+        out.append(sc)
     return out
 
 
-def backpressure_scenarios(protos=('v2',), laters=(0, 2, 3), seed=0):
+def backpressure_scenarios(protos=('v2',), laters=(0, 2, 3), seed=0, equal=False):
     """One sender (a request or a batch) gives up - cancelled, or its own timeout fires - at each
     point where it can wait: parked in `transport.write` behind a full send buffer, or awaiting
     the response.  Around it: 0-2 senders blocked before it and 0-2 after it; then the buffer
     drains and 0-3 further requests are made; the peer answers everything it saw (in the order
-    seen or reversed) and repeats one answer."""
+    seen or reversed) and repeats one answer.
+    `equal`: all the single requests are equal (same method, same args) and so are all the
+    batches of the same shape - the victim gives up among equals."""
     out = []
     for proto in protos:
         for nb in (0, 1, 2):
@@ -521,8 +596,64 @@ def backpressure_scenarios(protos=('v2',), laters=(0, 2, 3), seed=0):
                                     order.reverse()
                                 script += [['answer', i, 'ok'] for i in order]
                                 script += [['dup', order[0]], ['dup', v]]
+                                sc = {'layer': 'session', 'proto': proto, 'calls': calls,
+                                      'script': script, 'seed': seed + len(out)}
+                                if equal:
+                                    sc['tags'] = [0 if c[0] == 'req' else 100 + len(c[1])
+                                                  for c in calls]
+                                out.append(sc)
+    return out
+
+
+def equal_scenarios(protos=('v2', 'loose', 'v1', 'auto'), full=False):
+    """k = 2 or 3 tasks hold EQUAL requests (same method, same args; or batches of the same
+    members) at once, as several pollers would.  Caller g of them gives up - cancelled, its own
+    `timeout_after`, or the session's `sent_request_timeout` (which takes the callers 0..g, who
+    started earlier) - parked in `transport.write` or awaiting the response, while the others
+    still wait.  Then the peer answers ALL of them, each with its own value, in wire order or
+    reversed, repeats two answers; later calls repeat the same request once more and a different
+    one; those are answered too."""
+    out = []
+    for proto in protos:
+        for vkind in ('req', 'batch'):
+            if proto == 'v1' and vkind == 'batch':
+                continue
+            for k in (2, 3):
+                for g in range(k):
+                    for how in ('cancel', 'timeout', 'srt'):
+                        for point in ('response', 'write'):
+                            for rev in ((0, 1) if full else ((g + k + (point == 'write')) % 2,)):
+                                def mk(T=None):
+                                    if vkind == 'req':
+                                        return ['req'] + ([T] if T else [])
+                                    return ['batch', 'rnr', 0] + ([T] if T else [])
+                                calls = [mk(5 if how == 'timeout' and i == g else None)
+                                         for i in range(k)]
+                                script = [['pause']] if point == 'write' else []
+                                for i in range(k):
+                                    script += [['call', i], ['advance', 1]]
+                                # call i starts at time i; srt = 10: at time g + 10.5 the callers
+                                # 0..g have timed out, the others not yet
+                                if how == 'cancel':
+                                    script.append(['cancel', g])
+                                elif how == 'timeout':
+                                    script.append(['advance', 6])
+                                else:
+                                    script.append(['advance', g + 10.5 - k])
+                                if point == 'write':
+                                    script.append(['resume'])
+                                later = [mk(), ['req'] if vkind == 'batch' or proto == 'v1'
+                                         else ['batch', 'rr', 1]]
+                                calls += later
+                                script += [['call', k], ['call', k + 1]]
+                                order = list(range(k + 2))
+                                if rev:
+                                    order.reverse()
+                                script += [['answer', i, 'ok'] for i in order]
+                                script += [['dup', g], ['dup', (g + 1) % k]]
                                 out.append({'layer': 'session', 'proto': proto, 'calls': calls,
-                                            'script': script, 'seed': seed + len(out)})
+                                            'tags': [0] * (k + 1) + [1], 'script': script,
+                                            'seed': 7 + len(out), 'srt': 10, 'msd': 40})
     return out
 
 
@@ -535,8 +666,14 @@ def reply_scenarios(protos=('v2', 'loose', 'v1', 'auto')):
         b = ['req'] if proto == 'v1' else ['batch', 'rnr', 1]
         c3 = [['req'], b, ['req']]
         go = [['call', 0], ['call', 1], ['call', 2]]
-        S = lambda calls, script, **kw: out.append(dict(   # noqa: E731
-            {'layer': 'session', 'proto': proto, 'calls': calls, 'script': script, 'seed': 3}, **kw))
+        def S(calls, script, **kw):
+            # as is, and once more with the two single requests (calls 0 and 2) EQUAL
+            out.append(dict({'layer': 'session', 'proto': proto, 'calls': calls,
+                             'script': script, 'seed': 3}, **kw))
+            tags = list(range(len(calls)))
+            tags[2] = 0
+            out.append(dict({'layer': 'session', 'proto': proto, 'calls': calls,
+                             'script': script, 'seed': 3, 'tags': tags}, **kw))
         # a malformed response whose id is recoverable completes exactly that request
         S(c3, go + [['answer', 2, 'mal'], ['answer', 0, 'ok'], ['dup', 2], ['answer', 1, 'ok']])
         S(c3, go + [['answer', 0, 'mal'], ['dup', 0], ['unknown'], ['answer', 1, 'ok'],
@@ -544,6 +681,8 @@ def reply_scenarios(protos=('v2', 'loose', 'v1', 'auto')):
         # late reply after the caller's own timeout, then a replay of it
         S([['req', 5], b, ['req']], go + [['advance', 6], ['answer', 0, 'ok'], ['dup', 0],
                                           ['answer', 2, 'ok'], ['answer', 1, 'ok']])
+        S([['req'], b, ['req', 5]], go + [['advance', 6], ['answer', 2, 'ok'], ['answer', 0, 'ok'],
+                                          ['dup', 2], ['answer', 1, 'ok']])
         # late replies after the session's sent_request_timeout; later requests are fine
         S(c3 + [['req'], b], go + [['advance', 9], ['answer', 1, 'ok'], ['call', 3], ['call', 4],
                                    ['answer', 0, 'ok'], ['answer', 4, 'ok'], ['dup', 1],
@@ -551,6 +690,8 @@ def reply_scenarios(protos=('v2', 'loose', 'v1', 'auto')):
         # a cancelled caller's late reply
         S(c3, go + [['cancel', 1], ['answer', 1, 'ok'], ['answer', 0, 'ok'], ['dup', 1],
                     ['answer', 2, 'ok']])
+        S(c3, go + [['cancel', 2], ['answer', 2, 'ok'], ['answer', 0, 'ok'], ['dup', 2],
+                    ['answer', 1, 'ok']])
         # the connection is lost with requests outstanding
         S(c3, go + [['answer', 1, 'ok'], ['lost'], ['answer', 0, 'ok']])
         S(c3, [['pause']] + go + [['lost'], ['resume']])
@@ -585,6 +726,9 @@ def semaphore_scenarios(protos=('v2',)):
                 script += [['answer', i, 'ok'] for i in rest] + [['dup', 52], ['dup', victim]]
                 out.append({'layer': 'session', 'proto': proto, 'calls': calls, 'script': script,
                             'seed': victim, 'srt': 1000})
+                # once more with all 54 single requests equal
+                out.append({'layer': 'session', 'proto': proto, 'calls': calls, 'script': script,
+                            'seed': victim, 'srt': 1000, 'tags': [0] * 54 + [1]})
     return out
 
 
@@ -632,24 +776,30 @@ def random_scenarios(rng, n, protos=('v2', 'loose', 'v1', 'auto')):
             script.append(['resume'])
         script += [['call', i] for i in todo]
         script += [['answer', i, 'ok'] for i in range(ncalls) if rng.random() < 0.8]
-        out.append({'layer': 'session', 'proto': proto, 'calls': calls, 'script': script,
-                    'seed': rng.randrange(10**6)})
+        sc = {'layer': 'session', 'proto': proto, 'calls': calls, 'script': script,
+              'seed': rng.randrange(10**6)}
+        if k % 5 >= 2:
+            sc['tags'] = draw_tags(rng, calls, 0.6)
+        out.append(sc)
     return out
 
 
 def scenarios(rng, n, tier='quick'):
     out = basic_scenarios(rng, n)
     out += reply_scenarios()
+    out += equal_scenarios(full=(tier != 'quick'))
     out += semaphore_scenarios(('v2',) if tier == 'quick' else ('v2', 'loose', 'v1', 'auto'))
     out += random_scenarios(rng, 5 * n)
     if tier == 'quick':
         out += backpressure_scenarios(('v2', 'loose', 'v1', 'auto'), laters=(0, 2, 3))
+        out += backpressure_scenarios(('v2', 'loose', 'v1', 'auto'), laters=(0, 2), equal=True)
     else:
         out += backpressure_scenarios(('v2', 'loose', 'v1', 'auto'), laters=(0, 1, 2, 3))
+        out += backpressure_scenarios(('v2', 'loose', 'v1', 'auto'), laters=(0, 1, 2, 3), equal=True)
     return out
 
 
-def _evaluate(ctx, scs, res):
+def _evaluate(ctx, scs, res, scope='session_scenarios'):
     jr = fresh_import(ctx.repo, 'aiorpcx.jsonrpc')
     rawsocket = fresh_import(ctx.repo, 'aiorpcx.rawsocket')
     session_mod = fresh_import(ctx.repo, 'aiorpcx.session')
@@ -712,7 +862,7 @@ def _evaluate(ctx, scs, res):
                   int(any(s[0] == 'pause' for s in sc.get('script', []))))
         if any(e[0] == 'r' for e in obs['events']) and len(sc['calls']) >= 2:
             res.nontrivial('session:' + json.dumps([sc['proto'], sc['calls'], sc.get('script'),
-                                                    sc['seed']]))
+                                                    sc['seed'], sc.get('tags')]))
     model = ctx.model(lines)
     if model is not None:
         for n, k in enumerate(idx):
@@ -734,7 +884,7 @@ def _evaluate(ctx, scs, res):
             if want != have and not res.n_violations:
                 res.disagreement(sc, list(have), list(want), model_line=line)
     res['evaluations'] += len(scs)
-    res['scopes']['session_scenarios'] = res['scopes'].get('session_scenarios', 0) + len(scs)
+    res['scopes'][scope] = res['scopes'].get(scope, 0) + len(scs)
 
 
 def run(ctx, res):
